@@ -99,6 +99,11 @@ func init() {
 	p := func(pkg, fn, name, sel, text string) Site {
 		return Site{Module: mod, Pkg: pkg, Func: fn, Name: name, Kind: Present, Sel: sel, Text: text}
 	}
+	// body: the whole body of fn consists of exactly the given statements (texts without spaces): a
+	// forwarder with an extra statement, an added guard or a different callee flips the fact.
+	body := func(pkg, fn, name string, want ...string) Site {
+		return Site{Module: mod, Pkg: pkg, Func: fn, Name: name, Kind: Custom, Custom: allOf(stmtsAre(fn, "", want))}
+	}
 	register(
 		// index arithmetic (whole functions)
 		Site{Module: mod, Pkg: hp, Func: "parent", Name: "parent", Kind: Func, Params: I("i")},
@@ -153,7 +158,6 @@ func init() {
 		// Pop
 		e(hp, "Heap.Pop", "popIdx", "index[h.a][0].idx", "Int", nil, nil),
 		p(hp, "Heap.Pop", "popMovesLast", "", "(h.a)[0] = (h.a)[len(h.a)-1]"),
-		p(hp, "Heap.Pop", "popClears", "", "(h.a)[len(h.a)-1] = zero"),
 		p(hp, "Heap.Pop", "popTruncates", "", "h.a = (h.a)[:len(h.a)-1]"),
 		e(hp, "Heap.Pop", "popNotifyGuard", "if[0].cond", "Bool", I("len"), map[string]string{"len(h.a)": "len"}),
 		p(hp, "Heap.Pop", "popNotifies", "if[0].body", "h.notifyIndexChanged(0)"),
@@ -162,7 +166,6 @@ func init() {
 
 		// RemoveAt
 		p(hp, "Heap.RemoveAt", "removeAtMovesLast", "", "h.a[i] = h.a[len(h.a)-1]"),
-		p(hp, "Heap.RemoveAt", "removeAtClears", "", "h.a[len(h.a)-1] = zero"),
 		p(hp, "Heap.RemoveAt", "removeAtTruncates", "", "h.a = h.a[:len(h.a)-1]"),
 		e(hp, "Heap.RemoveAt", "removeAtGuard", "if[0].cond", "Bool", I("i", "len"), map[string]string{"i": "i", "len(h.a)": "len"}),
 		p(hp, "Heap.RemoveAt", "removeAtNotifies", "if[0].body", "h.notifyIndexChanged(i)"),
@@ -192,11 +195,14 @@ func init() {
 		// xheap.Heap: constructors and forwarding
 		e(xp, "New", "newLessWrap", "funclit[0]/return[0].result[0]", "Bool", B("lt"), map[string]string{"less(a,b)": "lt"}),
 		e(xp, "NewCmp", "cmpLess", "funclit[0]/return[0].result[0]", "Bool", I("c"), map[string]string{"compare(a,b)": "c"}),
-		p(xp, "Heap.Push", "xPushForwards", "", "h.inner.Push(item)"),
-		p(xp, "Heap.Pop", "xPopForwards", "", "return h.inner.Pop()"),
-		p(xp, "Heap.Peek", "xPeekForwards", "", "return h.inner.Peek()"),
-		p(xp, "Heap.Len", "xLenForwards", "", "return h.inner.Len()"),
-		p(xp, "Heap.Iterate", "xIterateForwards", "", "return h.inner.Iterate()"),
+		// every wrapper method of xheap.Heap is exactly one forwarding statement
+		body(xp, "Heap.Push", "xPushForwards", "h.inner.Push(item)"),
+		body(xp, "Heap.Pop", "xPopForwards", "returnh.inner.Pop()"),
+		body(xp, "Heap.Peek", "xPeekForwards", "returnh.inner.Peek()"),
+		body(xp, "Heap.Len", "xLenForwards", "returnh.inner.Len()"),
+		body(xp, "Heap.Grow", "xGrowForwards", "h.inner.Grow(n)"),
+		body(xp, "Heap.Shrink", "xShrinkForwards", "h.inner.Shrink(n)"),
+		body(xp, "Heap.Iterate", "xIterateForwards", "returnh.inner.Iterate()"),
 
 		// PriorityQueue
 		e(xp, "NewPriorityQueue", "dedupSkipCond", "range[0].body/if[0].cond", "Bool", B("ok"), map[string]string{"ok": "ok"}),
@@ -222,5 +228,8 @@ func init() {
 		p(xp, "PriorityQueue.Remove", "removeAbsentReturns", "if[0].body", "return"),
 		p(xp, "PriorityQueue.Remove", "removeCallsRemoveAt", "", "h.inner.RemoveAt(i)"),
 		p(xp, "PriorityQueue.Remove", "removeDeletes", "", "delete(h.m, k)"),
+		// PriorityQueue.Iterate is exactly: the inner heap's iterator, lazily mapped to the key field
+		body(xp, "PriorityQueue.Iterate", "pqIterateMapsInnerToKey",
+			"returniterator.Map(h.inner.Iterate(),func(kpKP[K,P])K{returnkp.K})"),
 	)
 }
